@@ -14,7 +14,7 @@ RULE = (
     "exhaustively (first face fixed, further faces all ordered tuples of distinct nodes with canonical introduction of "
     "new nodes; quick: 2 faces, sizes 3-5, <=6 nodes; thorough: additionally 3 faces of sizes 3-4, <=6 nodes), (b) "
     "generated hull / voronoi / lat-lon / solid / edge-subdivided meshes with drawn extra padding columns and a drawn "
-    "order of first access of the five derived quantities. Non-trivial = mixed face sizes, or padding beyond one face, "
+    "order of first access of the five derived quantities and a drawn memory layout of the input table (C, Fortran, strided view), optionally with a second grid of the same table shape deriving its edges in between two accesses. Non-trivial = mixed face sizes, or padding beyond one face, "
     "or two faces sharing more than one edge, or a non-default access order; distinct by case hash."
 )
 EXHAUSTIVE_NOTE = "enumerated sub-check covers the stated small scope completely (exhaustive within that scope only)"
@@ -110,6 +110,11 @@ def _case(draw, tier):
         "mesh": mesh,
         "extra_width": draw(st.sampled_from([0, 0, 0, 1, 2])),
         "access": draw(st.permutations([0, 1, 2, 3, 4])),
+        "layout": draw(st.sampled_from(["C", "C", "F", "view"])),
+        # a second grid of the same table shape (faces renumbered / corners rotated) deriving its
+        # edges between two of this grid's first accesses
+        "companion_after": draw(st.sampled_from([None, None, 0, 1, 2, 3])),
+        "companion_rot": draw(st.integers(1, 7)),
     }
 
 
@@ -141,6 +146,9 @@ def classify(case):
         labs.append("faces-share-several-edges")
     if list(case["access"]) != [0, 1, 2, 3, 4]:
         labs.append("non-default-access-order")
+    labs.append("layout:" + case.get("layout", "C"))
+    if case.get("companion_after") is not None:
+        labs.append("companion-grid-interleaved")
     nontrivial = len(set(sizes)) > 1 or npad > 1 or multi or list(case["access"]) != [0, 1, 2, 3, 4]
     return labs, nontrivial
 
@@ -152,12 +160,27 @@ def run_case(case, ctx):
     nodes = np.asarray(mesh["nodes"], float)
     width = max(len(f) for f in faces) + case["extra_width"]
     conn = build.padded_faces(mesh, width=width)
-    g = build.ux().Grid.from_topology(nodes[:, 0].copy(), nodes[:, 1].copy(), conn.copy(), fill_value=FILL)
+    layout = case.get("layout", "C")
+    if layout == "F":
+        arg = np.asfortranarray(conn)
+    elif layout == "view":
+        wide = np.full((conn.shape[0] * 2, conn.shape[1] + 1), 7, dtype=conn.dtype)
+        wide[::2, :-1] = conn
+        arg = wide[::2, :-1]
+    else:
+        arg = conn.copy()
+    g = build.ux().Grid.from_topology(nodes[:, 0].copy(), nodes[:, 1].copy(), arg, fill_value=FILL)
     got = {}
-    for k in case["access"]:
+    comp_after = case.get("companion_after")
+    for pos, k in enumerate(case["access"]):
         name = ACCESS[k]
         v = getattr(g, name)
         got[name] = np.array(v.values) if hasattr(v, "values") else v
+        if comp_after is not None and pos == comp_after:
+            r = case.get("companion_rot", 1)
+            m2 = {"nodes": mesh["nodes"], "faces": [f[r % len(f):] + f[: r % len(f)] for f in reversed(faces)]}
+            g2 = build.ux().Grid.from_topology(nodes[:, 0].copy(), nodes[:, 1].copy(), build.padded_faces(m2, width=width), fill_value=FILL)
+            _ = g2.n_edge, g2.n_nodes_per_face.values
     fails = []
     site = "from_topology"
 
